@@ -74,6 +74,17 @@ def wiring_section():
         ob("pvl_flavor:encodes-True-iff-dumps-returned", "encodes = True" in assigns and "encodes = False" in assigns)
         ob("pvl_flavor:loads-True-set-right-after-pvl.loads-returns",
            [ast.unparse(st) for st in outer[0].body[:2]] == ["some_pvl = pvl.loads(text, **decenc)", "loads = True"])
+    # pvl_validate.main: every dialect row is computed by its own unconditional pvl_flavor call
+    fn = prog.functions["pvl.pvl_validate.main"]
+    calls = [n for n in ast.walk(fn) if isinstance(n, ast.Call) and isinstance(n.func, ast.Name) and n.func.id == "pvl_flavor"]
+    loops = [n for n in ast.walk(fn) if isinstance(n, ast.For) and ast.unparse(n.iter) == "dialects.items()"]
+    ok = (len(calls) == 1 and len(loops) == 1 and len(loops[0].body) == 1 and isinstance(loops[0].body[0], ast.Assign)
+          and loops[0].body[0].value is calls[0] and ast.unparse(loops[0].body[0].targets[0]) == f"results[{ast.unparse(loops[0].target.elts[0])}]")
+    ob("pvl_validate.main:one-unconditional-pvl_flavor-call-per-dialect-row(a-row's-verdict-depends-on-no-other-row)", ok,
+       [ast.unparse(c)[:80] for c in calls])
+    if calls:
+        a = [ast.unparse(x) for x in calls[0].args]
+        ob("pvl_validate.main:pvl_flavor-gets-the-file's-text-and-the-row's-own-dialect-table", a[:3] == ["pvl_text", "k", "v"], a)
     return s
 
 
